@@ -294,7 +294,7 @@ the oracle runs for the heap driver), along EVERY sequence of client ops:
 * every other op is its `HOp` (`c04_heap_handles`); `Rel` — heap order, exact indices and owners,
   detached elements at −1 — holds after every client op. -/
 theorem c04_client_handles :
-    (∀ cmp, SWO cmp → ∀ ops, CSteps ops ⟨HState.zero cmp, []⟩ (HSpec.zero cmp)) ∧
+    (∀ cmp, SWO cmp → ∀ ops, CSteps ops ⟨HState.zero cmp, [], []⟩ (HSpec.zero cmp)) ∧
     (∀ ops (c : HClient) s, Rel c.st s → CSteps ops c s) ∧
     (∀ (c : HClient) s, Rel c.st s → ∀ (h : Fin 2) e,
       stepC c (.copyRemove h e) = some (c, .unit) ∧ stepC c (.copyFix h e) = some (c, .unit)) := by
@@ -304,6 +304,56 @@ theorem c04_client_handles :
     intro ho; have := R.ok.core.ownR e _ ho; omega
   have h1 := heap_handles_ignored (c.st.cmp h.val) c.st.m (h.val + 2) e hf
   exact ⟨by simp [stepC, h1.1], by simp [stepC, h1.2]⟩
+
+/-- `for v := range PopAll() { body }` with calls INSIDE the loop body (Push, Pop, Peek, Len,
+Remove, Fix … on either heap resp. on the slice; the body of iteration `i` is `body i`, the
+consumer leaves after `k` iterations, `k = 0`: never). The model runs the loop of iter.go as
+coded — `Pop` first, THEN `yield` — (`popAllBody`, `Slice.popAllBody`, protocol line
+`popallbody`); the theorem says that this is the explicit loop
+`for len > 0 { e := Pop(); body(i, e); if i+1 == k { break } }` on the multiset spec:
+(1) `Heap`: from related states, for ANY body whose calls carry no client obligation, no panic;
+    the yielded elements, the body results and the final state are those of `BodyLoopOK` — every
+    yielded `e` is a live handle that no live handle precedes AT ITS TURN (after the earlier bodies'
+    effects), its body runs in the spec state where `e` has already left the heap (`specPop`), every
+    body call is a spec step (`SpecRun`); `Rel` holds at the end.  Hence a loop that yields
+    `Values[0]` BEFORE popping (seed C04-F) is not this model: there a body `Push` of a preceding
+    value re-yields the same element, whereas here the yielded handle is not live during its body.
+(2) `Slice`: the same with multisets (`SBodyLoopOK`): each yielded `x` is preceded by no element
+    of `Values` at its turn and `(x :: Values') ~ Values`; the body runs on `Values'`; `Values` is
+    heap-ordered after every body call and at the end. -/
+theorem c04_popall_body :
+    (∀ (h : Fin 2) (body : Nat → List HOp) (k : Nat),
+      (∀ i o, o ∈ body i → ∀ s', specPre s' o) →
+      ∀ (f i : Nat) (st : HState) (s : HSpec), Rel st s →
+      ∃ st' es rs d s', popAllBody h body k f i st = some (st', es, rs, d) ∧
+        BodyLoopOK h body k f i s es rs d s' ∧ Rel st' s') ∧
+    (∀ cmp, SWO cmp → ∀ (body : Nat → List SOp) (k : Nat),
+      (∀ i o, o ∈ body i → ∀ s', sPre s' o) →
+      ∀ (f i : Nat) (s : List Int), Heap cmp s →
+      ∃ s' xs rs d, Slice.popAllBody cmp body k f i s = some (s', xs, rs, d) ∧
+        SBodyLoopOK cmp body k f i s xs rs d s' ∧ Heap cmp s') :=
+  ⟨fun h body k hb => body_loop h body k hb, fun cmp hs body k hb => slice_body_loop hs body k hb⟩
+
+/-- Two (or more) `iter.Pull` cursors over held `PopAll` Seq values, interleaved in any order with
+each other and with every other client op (`COp.pull/next/stop`, part of `CSteps` in
+`c04_client_handles`): `next()` on an active cursor is EXACTLY one `Pop` on the shared heap in its
+current state — same state change, same result, the spec's `Pop` step — and the cursor is finished
+iff that `Pop` answered nil; `next()` on a finished cursor answers nil and changes nothing (also
+after later pushes); `pull` and `stop` touch no heap. So two alternating cursors over one heap see
+the successive minima, each element exactly once. -/
+theorem c04_pull_cursors (c : HClient) (s : HSpec) (R : Rel c.st s) (j : Nat) (hj : j < c.curs.length) :
+    (∀ h, c.curs[j]? = some (h, true) →
+      ∃ c' r, stepC c (.next j) = some (c', r) ∧ stepH c.st (.pop h) = some (c'.st, r) ∧
+        MinRet s h r ∧ Rel c'.st (specStep s (.pop h) r) ∧ c'.curs[j]? = some (h, !r.isNil)) ∧
+    (∀ h, c.curs[j]? = some (h, false) → stepC c (.next j) = some (c, .handle none)) ∧
+    (∃ c', stepC c (.stop j) = some (c', .unit) ∧ c'.st = c.st) := by
+  refine ⟨fun h hg => ?_, fun h hg => by simp [stepC, hg], ?_⟩
+  · obtain ⟨c', r, s', hrun, hpost, R'⟩ := client_step R (.next j) hj
+    simp only [CPost, hg] at hpost
+    obtain ⟨h1, h2, h3, h4⟩ := hpost
+    exact ⟨c', r, hrun, h1, h2, h3 ▸ R', h4⟩
+  · have hget : c.curs[j]? = some c.curs[j] := List.getElem?_eq_getElem hj
+    exact ⟨{ c with curs := c.curs.set j ((c.curs[j]).1, false) }, by simp [stepC, hget], rfl⟩
 
 /-- Non-vacuity of `specPre`: after `Push(7)` on heap A returned handle 0 and `Pop` returned it,
 handle 0 is allocated and live nowhere, so `B.PushElement(0)` is a call the client may make; and
